@@ -27,7 +27,7 @@ func init() {
 	Register(&Unit{Prop: "C11", Name: "symbols",
 		Shards: func(tier string) int { return map[string]int{"quick": 8, "thorough": 16}[tier] },
 		Run: func(c *Ctx) {
-			c.Rapid("codes", c.Pick(3000, 60000), func(t *rapid.T) {
+			c.Rapid("codes", c.Pick(10000, 100000), func(t *rapid.T) {
 				gc := drawC11(t)
 				if msg := evalC11Symbols(c, gc); msg != "" {
 					c.Fail(gc, msg)
